@@ -96,6 +96,24 @@ func run(o options) int {
 		return 0
 	}
 	dischargeAll(results, outDir, o.timeoutMs, o.tier == "thorough", runtime.NumCPU())
+	// frame obligations (decided syntactically by the frame checker)
+	if o.fn == "" {
+		if frs := w.checkFrames(o.prop); len(frs) > 0 {
+			fr := &FuncResult{Key: "frame-checker", vc: newVC(w, nil, nil)}
+			for _, r := range frs {
+				kind := "frame"
+				ob := &Obligation{Name: strings.TrimPrefix(r.Func, modPath+"/") + "#" + kind, Kind: kind, Func: r.Func, Expect: "unsat",
+					Desc:   fmt.Sprintf("writes only memory it allocated itself, transitively over %d functions", r.Reached),
+					Solver: "frame-checker", Verdict: "unsat", PC: tBool(true), Cond: tBool(true)}
+				if !r.OK {
+					ob.Verdict = "frame-violation"
+					ob.Model = strings.Join(r.Problems, "\n")
+				}
+				fr.Obls = append(fr.Obls, ob)
+			}
+			results = append(results, fr)
+		}
+	}
 	return report(o, w, results, missing, start, loadT, genT)
 }
 
